@@ -4,8 +4,8 @@ from .lib import cz, cbool, clist, coq_mismatches
 LEVEL = "proof"
 META = {
     "category": "proof",
-    "text": "Coq theorems over a model (Go integer widths explicit) of the pc->(line,col) table of internal/compile/compile.go: clip, the delta-encoding loop of fcomp.generate (4-bit pc, 5-bit line, 6-bit column deltas, continuation bit, uint16 packing), Funcode.decodeLNT and the binary search of Funcode.Position. lnt_roundtrip: for ALL instruction lists with uint32 pc and int32 line/col (any deltas, wrap-around included, any length) decodeLNT(encode rows) = the positioned rows; the encoder's inner loop terminates within a proved bound and never panics; position_lookup: the binary search returns the last row with pc' <= pc for every table length; the shift/mask bridge is a complete enumeration of the 65536 field combinations inside Coq. callstack_shape: over an abstract call/step/return/fail event machine mirroring starlark.Call / CallInternal (fr.pc saved before each instruction, push/pop, error wrapped once with a copy of the frame stack) the CallStack attached to the error is exactly the list of active calls, outermost first, each at its pending call / failing instruction. slice_carries_position: the repaired compiler puts the position of '[' on the SLICE instruction for every slice expression (History.v: the code before fix 103924d left it without one). Tie to /repo on every run: the real generate / decodeLNT / Position are run through verif hooks on generated rows (boundary deltas, column jumps of 10^4, line gaps of 10^5, negative and wrapping deltas, thousands of rows) and compared with the model and with the independent specification inside Coq; generated Starlark programs with call chains of depth 1-8 through defs, lambdas, closures, comprehensions, built-in callbacks and 33 kinds of failing operation (variables of every scope read before assignment: local, cell, free variable of an enclosing function read by a nested def/lambda, global), each expression kind placed in 18 syntactic contexts (value, statement, if/elif/while condition bare, negated, inside and/or, parenthesised, conditional-expression test, comprehension filter, call argument, default value, list element), failing stores (x[i] = v, x.f = v, x[i] op= v, x.f op= v, sequence-assignment targets on immutable / frozen / being-iterated receivers) (incl. '+' chains with folded literal runs, argument-binding and recursion-check failures in a fresh callee frame) placed at generator-chosen (line, col) are executed, and EvalError.CallStack / Backtrace() are compared with the positions the generator wrote, before and after a serialisation round trip, and on a cold thread as well as on a thread that ran unrelated deep calls before (the report must not depend on history), and every error is inspected again after later failures on its thread (an error is a value); freshly loaded programs with big functions are failed in by 8 threads at once (every thread's CallStack must be right); generated call histories with a probe built-in recording thread.CallStack() are replayed through the event machine of Stack.v.",
-    "note": "Trusted: Coq kernel + vm_compute; the correspondence harness and its program generator (expected positions are the positions of the operator tokens the generator wrote). Not modelled in Coq: the compiler's setPos discipline (which instruction carries which token's position) and the interpreter loop itself -- both are exercised by the generated programs only. Position tables with decreasing pc are covered by the theorem but not run on the real encoder (2^32/15 entries).",
+    "text": "Coq theorems over a model (Go integer widths explicit) of the pc->(line,col) table of internal/compile/compile.go: clip, the delta-encoding loop of fcomp.generate (4-bit pc, 5-bit line, 6-bit column deltas, continuation bit, uint16 packing), Funcode.decodeLNT and the binary search of Funcode.Position. lnt_roundtrip: for ALL instruction lists with uint32 pc and int32 line/col (any deltas, wrap-around included, any length) decodeLNT(encode rows) = the positioned rows; the encoder's inner loop terminates within a proved bound and never panics; position_lookup: the binary search returns the last row with pc' <= pc for every table length; the shift/mask bridge is a complete enumeration of the 65536 field combinations inside Coq. callstack_shape: over an abstract call/step/return/fail event machine mirroring starlark.Call / CallInternal (fr.pc saved before each instruction, push/pop, error wrapped once with a copy of the frame stack) the CallStack attached to the error is exactly the list of active calls, outermost first, each at its pending call / failing instruction. slice_carries_position: the repaired compiler puts the position of '[' on the SLICE instruction for every slice expression (History.v: the code before fix 103924d left it without one). fallible_has_pos (FallibleSpec/VM/Gen/Table.v, over C01's models of the interpreter loop VM.v and of the code generator Compile.v, i.e. every statement and expression form except lambda and closures): the opcode classification `fallible` is exact for VM.v (infallible_never_fails: an instruction with a non-fallible opcode never ends a step with an error; fallible_iff_can_fail: each of the 19 fallible opcodes has a failing state); a failing step reports the position carried by the instruction at the innermost frame's pc; fallible_sites_exact: for every program and every function compile_prog produces, the fallible instructions of the generated code, in code order, are exactly the operations an independent specification (op_pos_*: the syntax tree's operations in evaluation order with the token compile.go reports -- operator, '(', '[', '.', ':', for, load, name) lists, each carrying that token's position, by induction over the generator; fold_keeps_positions / folded_fallible_has_pos: the folding of literal runs in '+' chains (fcomp.plus) invents and moves no position -- every operation of a folded block is an operation of the source block with the same kind and position (inclusion only: merging reorders and drops '+'), so the fallible instructions of compile_prog (fold_prog p) carry positions of operations of the source of their function; failing_pc_reports_operation: composed with position_of_encoded, for any strictly increasing uint32 instruction addresses and int32 positions with line >= 1, the position Position(pc) returns for the pc of a failing step is the failing operation's own position, not an earlier instruction's. Tie to /repo on every run: the real generate / decodeLNT / Position are run through verif hooks on generated rows (boundary deltas, column jumps of 10^4, line gaps of 10^5, negative and wrapping deltas, thousands of rows) and compared with the model and with the independent specification inside Coq; generated Starlark programs with call chains of depth 1-8 through defs, lambdas, closures, comprehensions, built-in callbacks and 33 kinds of failing operation (variables of every scope read before assignment: local, cell, free variable of an enclosing function read by a nested def/lambda, global), each expression kind placed in 18 syntactic contexts (value, statement, if/elif/while condition bare, negated, inside and/or, parenthesised, conditional-expression test, comprehension filter, call argument, default value, list element), failing stores (x[i] = v, x.f = v, x[i] op= v, x.f op= v, sequence-assignment targets on immutable / frozen / being-iterated receivers) (incl. '+' chains with folded literal runs, argument-binding and recursion-check failures in a fresh callee frame) placed at generator-chosen (line, col) are executed, and EvalError.CallStack / Backtrace() are compared with the positions the generator wrote, before and after a serialisation round trip, and on a cold thread as well as on a thread that ran unrelated deep calls before (the report must not depend on history), and every error is inspected again after later failures on its thread (an error is a value); freshly loaded programs with big functions are failed in by 8 threads at once (every thread's CallStack must be right); generated call histories with a probe built-in recording thread.CallStack() are replayed through the event machine of Stack.v.",
+    "note": "Trusted: Coq kernel + vm_compute; the correspondence harness and its program generator (expected positions are the positions of the operator tokens the generator wrote). The compiler's setPos discipline and the interpreter's error table are proved over C01's Compile.v / VM.v (tied to /repo by C01's correspondence check, instruction by instruction including the carried positions), not over a translation of compile.go itself; not covered by fallible_has_pos: lambda and closures (FREECELL/LOCALCELL are classified but Compile.v never generates them), the resolver's slot numbering (the specification is read on the resolved tree), and PREDECLARED (infallible in C01's VM) -- these are exercised by the generated programs only. Position tables with decreasing pc are covered by the theorem but not run on the real encoder (2^32/15 entries).",
     "technique": "Coq proof over executable model + differential correspondence (vm_compute) + Spec.v oracle + generated failing programs with known positions",
 }
 
